@@ -32,6 +32,8 @@ func runCanned(t *testing.T, tape *Tape, w *World, variant string, steps int, ou
 		out.v = r.cannedDLChain()
 	case "prune_dl":
 		out.v = r.cannedPruneDL()
+	case "snap_long":
+		out.v = r.cannedSnapLong()
 	default:
 		panic("HARNESS: unknown canned scenario " + variant)
 	}
@@ -270,6 +272,32 @@ func (r *Run) cannedPruneDL() *Violation {
 	steps = append(steps,
 		func() *Violation { return r.pullSub(r.sub(2), true) }, // the forwarded message, acknowledged
 		func() *Violation { return r.fixpoint() },
+	)
+	return r.runSteps(steps)
+}
+
+// snap_long (must hold on the unchanged tree): a snapshot taken while far more than a
+// thousand messages are acknowledged behind one stuck head message records all of those
+// acknowledgements: seeking to it restores the head and nothing else.
+func (r *Run) cannedSnapLong() *Violation {
+	const n = 1150
+	steps := []func() *Violation{
+		func() *Violation { return r.xTopic(0) },
+		func() *Violation { return r.xSub(0, 0, shortRetry) },
+	}
+	for i := 0; i <= n; i++ {
+		steps = append(steps, func() *Violation { return r.xPublish(0, nil, "") })
+	}
+	steps = append(steps,
+		func() *Violation { return r.pullSub(r.sub(0), false) }, // (a pull hands out at most 1000)
+		func() *Violation { return r.pullSub(r.sub(0), false) },
+		func() *Violation { return r.ackWhere(0, func(seq int) bool { return seq != 1 }) },
+		func() *Violation { return r.doSnapshot(0, 0) },
+		func() *Violation { return r.doSeekSnap(0, 0) },
+		func() *Violation { r.sleep(5 * time.Second); return nil },
+		func() *Violation { return r.pullSub(r.sub(0), true) },
+		func() *Violation { r.sleep(5 * time.Second); return nil },
+		func() *Violation { return r.pullSub(r.sub(0), true) },
 	)
 	return r.runSteps(steps)
 }
